@@ -167,6 +167,14 @@ class AdaptIt:
         self.kind, self.inner, self.closure, self.captures, self.done = kind, inner, closure, captures, done
 
 
+class ChunksIt:
+    """slice.chunks(_mut)(n): successive views of length n into an array held in the store."""
+    __slots__ = ('root', 'proj', 'n', 'pos', 'total')
+
+    def __init__(self, root, proj, n, pos, total):
+        self.root, self.proj, self.n, self.pos, self.total = root, proj, n, pos, total
+
+
 class Opt:
     """Option value: tag in {'some','none',None(unknown)}, payload abstract value."""
     __slots__ = ('tag', 'payload', 'label')
@@ -1243,6 +1251,23 @@ class Interp:
                 if ty.startswith('std::ops::RangeFrom<') and isinstance(rng, Agg) and len(rng.items) == 1 and isinstance(rng.items[0], Int):
                     fr.storev(dest, Ref(base[0], list(base[1]) + [['off', rng.items[0].v]]))
                     return
+        if name in ('chunks_mut', 'chunks', 'chunks_exact', 'chunks_exact_mut') and res.startswith('core::slice::<impl [T]>::chunks') and len(args) == 2:
+            v = fr.operand(args[0])
+            n_ = fr.operand(args[1])
+            if isinstance(v, Ref) and isinstance(n_, Int) and n_.v > 0:
+                arr = fr._project(fr.store.get(v.root, TOP), v.proj)
+                if isinstance(arr, Agg):
+                    fr.storev(dest, ChunksIt(v.root, list(v.proj), n_.v, 0, len(arr.items)))
+                    return
+        if name == 'next' and (res.startswith('<std::slice::ChunksMut<') or res.startswith('<std::slice::Chunks<') or res.startswith('<std::slice::ChunksExact')):
+            v = fr.deref_operand(args[0])
+            if isinstance(v, ChunksIt):
+                if v.pos < v.total:
+                    fr.storev(dest, Opt('some', Ref(v.root, list(v.proj) + [['off', v.pos]])))
+                    fr.store_through(args[0], ChunksIt(v.root, v.proj, v.n, v.pos + v.n, v.total))
+                else:
+                    fr.storev(dest, Opt('none', TOP))
+                return
         if name == 'copy_from_slice' and res.startswith('core::slice::<impl [T]>::copy_from_slice'):
             dv_ = fr.operand(args[0])
             src = self.value_of_ref(fr, args[1])
